@@ -21,7 +21,8 @@ RULE = (
     'Non-trivial: u != v, or identity on an offset/logarithmic unit, with x not in {0,1}. Round 4: q + q and (a + '
     'b) - a on levels. Later rounds: the same inputs as ONE array (list, float64, float32) against the scalar '
     'answers; sums with mixed prefixes; linear units into compound logarithmic targets (/cm2, /kHz); augmented += '
-    'and -= on levels. Distinct = distinct case JSON.'
+    'and -= on levels. Round 8: value / to / value on one object answers for the units it has at that moment. '
+    'Distinct = distinct case JSON.'
 )
 ASSUMPTIONS = [
     "dBx<->dBy pairs the documentation does not promise (e.g. dBuA->dBA) are not demanded",
